@@ -124,4 +124,47 @@ theorem C17_deriv_Sign_heaviside (c : ℕ) (ρ : Env ℝ) (a : SEx ℝ) (h : Kin
   ⟨by simpa [SEx.diff, eval] using diff_correct (.fn1 .sign a) c ρ h,
    by simpa [SEx.diff, eval] using diff_correct (.fn1 .heav a) c ρ h⟩
 
+/-- the identities of IEEE-754 arithmetic that are *exact* on finite numbers: multiplying by the masks 1 and 0, adding 0, and the
+complement of a mask.  Nothing about associativity, distributivity or cancellation is assumed: those hold only up to rounding. -/
+structure ExactUnits {α : Type} (F : TFld α) : Prop where
+  one_mul : ∀ a, F.mul F.one a = a
+  mul_one : ∀ a, F.mul a F.one = a
+  zero_mul : ∀ a, F.mul F.zero a = F.zero
+  mul_zero : ∀ a, F.mul a F.zero = F.zero
+  add_zero : ∀ a, F.add a F.zero = a
+  zero_add : ∀ a, F.add F.zero a = a
+  one_sub_one : F.sub F.one F.one = F.zero
+  one_sub_zero : F.sub F.one F.zero = F.one
+
+/-- "the lowered expression exists and satisfies `P`", for any number type -/
+def lowersToG {α : Type} (r : Except Err (SEx α)) (P : SEx α → Prop) : Prop :=
+  match r with
+  | .ok e => P e
+  | .error _ => False
+
+set_option linter.unusedSimpArgs false in
+/-- what `Min(x, y)` is rewritten to now returns the selected argument *exactly* in every arithmetic with exact units — in
+particular in floating point on finite values, whatever the magnitudes of the two arguments (D24: the form `x·m − y·m + y` that sympy
+produced for a numeric `y` needs cancellation, which floating point does not have) -/
+theorem C17_value_Min_exact {α : Type} (F : TFld α) (hF : ExactUnits F) (L : Layout) (i : ℕ) (a b : Ex α) (xa xb : SEx α)
+    (ha : a.lower L i = .ok xa) (hb : b.lower L i = .ok xb) :
+    lowersToG ((Generated.minRule F a b).lower L i) fun e =>
+      ∀ ρ, eval F ρ e = (haveI := F.decLt (eval F ρ xa) (eval F ρ xb); if F.lt (eval F ρ xa) (eval F ρ xb) then eval F ρ xa else eval F ρ xb) := by
+  simp only [Generated.minRule, Ex.lower, ha, hb, bind, Except.bind, lowersToG]
+  intro ρ
+  simp only [eval, evalFn1, b2a]
+  by_cases h : F.lt (eval F ρ xa) (eval F ρ xb)
+  · simp [h, hF.one_mul, hF.mul_one, hF.zero_mul, hF.mul_zero, hF.add_zero, hF.zero_add, hF.one_sub_one, hF.one_sub_zero]
+  · simp [h, hF.one_mul, hF.mul_one, hF.zero_mul, hF.mul_zero, hF.add_zero, hF.zero_add, hF.one_sub_one, hF.one_sub_zero]
+
+/-- the hypothesis is satisfiable: real arithmetic has exact units -/
+example : ExactUnits realF := by
+  constructor <;> intros <;> simp [realF]
+
+/-- tests in IEEE double precision (kernel evaluation of `Float`): with the masks m = 1, 1 − m = 0 the rule read now returns 3 for
+Min(3, 10¹⁸), the distributed form `3·m − 10¹⁸·m + 10¹⁸` returns 0 -/
+example : ((Float.ofNat 3) * (Float.ofNat 1) + (Float.ofNat 1000000000000000000) * (Float.ofNat 1 - Float.ofNat 1)).toUInt64 = 3 ∧
+    ((Float.ofNat 3) * (Float.ofNat 1) - (Float.ofNat 1000000000000000000) * (Float.ofNat 1) + (Float.ofNat 1000000000000000000)).toUInt64 = 0 := by
+  decide +kernel
+
 end Solverz
